@@ -17,3 +17,4 @@ def rules(ctx):
     S.c06_r6_restore(ctx)
     S.state_writer_rules(ctx)
     S.header_codec_rules(ctx)
+    S.child_pair_rules(ctx)
